@@ -253,6 +253,15 @@ func (formatter *typeFormatter) formatMap(def ast.MapType, resolveBuilders bool)
 }
 
 func (formatter *typeFormatter) formatRef(def ast.Type, resolveBuilders bool) string {
+	// a named constant is declared as a constant, not as a type: what refers to it (the items
+	// of a list, the values of a map, an argument) holds a value of the constant's own type
+	if resolved := formatter.context.ResolveRefs(def); resolved.IsConcreteScalar() {
+		// (a copy of the type: only its own flag is set)
+		resolved.Nullable = def.Nullable
+
+		return formatter.doFormatType(resolved, resolveBuilders)
+	}
+
 	referredPkg := formatter.packageMapper(def.AsRef().ReferredPkg)
 	typeName := formatObjectName(def.AsRef().ReferredType)
 
